@@ -188,6 +188,16 @@ try:
         forged = request([[a], [v2]], sigmaker=lambda keys, k, inc, exp: ksrxml.mk_sig(dict(k, priv=a["priv"]), keys, inc, exp))
         C.judge("other-key-under-known-identifier-signed-by-first-key", pol(2), xml=ksrxml.render_ksr(forged), strict=False)
         C.judge("other-key-under-known-identifier-keys-match-on", pol(2, keys_match=True), xml=ksrxml.render_ksr(forged), strict=False)
+    # honest bundles with ECDSA keys of awkward byte patterns: X starting with 0x04 (looks like a SEC1 prefix), 0x00, the DER length octet
+    ODD = [ksrxml.mk_key(P.ec_x_first(13, 4), alg=13, ident="ZSK-x04-256"), ksrxml.mk_key(P.ec_x_first(14, 4), alg=14, ident="ZSK-x04-384"),
+           ksrxml.mk_key(P.ec_x_first(13, 0), alg=13, ident="ZSK-x00-256"), ksrxml.mk_key(P.ec_x_lenlike(13), alg=13, ident="ZSK-x3f-256")]
+    P.save()
+    for k in ODD:
+        C.judge("honest-odd-ec-key", pol(1), xml=ksrxml.render_ksr(request([[k]])), desc={"x0": hex(k["pub"][0])})
+        other = R.choice([x for x in KEYS if x["alg"] == k["alg"]])
+        C.judge("honest-odd-ec-key", pol(2), xml=ksrxml.render_ksr(request([[k, other], [other, k]])), desc={"x0": hex(k["pub"][0])})
+        r2 = clone(request([[k]])); r2["bundles"][0]["keys"][0]["pub"] = flip(k["pub"], 9)
+        C.judge("odd-ec-key-flipped", pol(1), xml=ksrxml.render_ksr(r2), strict=False)
 finally:
     C.close()
 
